@@ -63,6 +63,20 @@ func f8HelperPrograms() []f8prog {
 	} {
 		ps = append(ps, f8prog{"testing.mock", mockDecls + testSub("recv", s)})
 	}
+	// mock targets that share a name with a main-VCL subroutine, chains and cycles of overrides,
+	// each reached through a call statement and through testing.call_subroutine
+	sameDecls := "sub helper { set req.http.M = \"same\"; }\nsub mock_plain { set req.http.M = \"1\"; }\nsub mock_b { call helper; }\nsub fn_int INTEGER { return 7; }\n"
+	for _, s := range []string{
+		`testing.mock("helper", "helper"); testing.call_subroutine("helper");`, `testing.mock("helper", "helper"); call helper;`,
+		`testing.mock("helper", "helper"); testing.call_subroutine("vcl_recv");`, `testing.mock("helper", "helper"); testing.restore_mock("helper"); testing.call_subroutine("helper");`,
+		`testing.mock("helper", "rec"); testing.mock("rec", "helper"); testing.call_subroutine("helper");`, `testing.mock("helper", "rec"); testing.mock("rec", "helper"); call helper;`,
+		`testing.mock("helper", "mock_plain"); testing.mock("mock_plain", "helper"); testing.call_subroutine("helper"); call helper;`,
+		`testing.mock("helper", "mock_b"); testing.mock("mock_b", "mock_plain"); testing.call_subroutine("helper"); testing.call_subroutine("mock_b");`,
+		`testing.mock("fn_int", "fn_int"); declare local var.i INTEGER; set var.i = fn_int(); set var.i = testing.call_subroutine("fn_int");`,
+		`testing.mock("helper", "helper"); testing.mock("helper", "helper"); testing.call_subroutine("helper"); testing.restore_all_mocks(); testing.call_subroutine("helper");`,
+	} {
+		ps = append(ps, f8prog{"testing.mock", sameDecls + testSub("recv", s)})
+	}
 	tableDecls := "table t2 { \"a\": \"b\", }\ntable t_int INTEGER { \"a\": 1, }\ntable tbl { \"own\": \"shadow\", }\n"
 	for _, s := range []string{
 		`testing.table_set(nosuch, "k", "v");`, `testing.table_set(tbl_int, "k", "v");`, `testing.table_set(tbl, "", ""); log table.lookup(tbl, "");`, `testing.table_set(tbl, "@LONG70K@", "@LONG70K@"); log table.lookup(tbl, "@LONG70K@");`,
